@@ -181,16 +181,19 @@ def dropLastIf (p : Char → Bool) (s : Str) : Str :=
   | c :: r => if p c then r.reverse else s
   | [] => s
 
-/-- `parse_vec_str(val, x, y, z)`. -/
-def parseV3 (dflt : V3) (s : Str) : V3 :=
-  let s := strip s
-  let s := match s with
-    | c :: r => if isOpenBr c then r else s
-    | [] => s
-  let s := dropLastIf isCloseBr s
-  match splitWs s with
+def dropOpenBr (s : Str) : Str :=
+  match s with
+  | c :: r => if isOpenBr c then r else s
+  | [] => s
+
+def vec3Of (dflt : V3) (toks : List Str) : V3 :=
+  match toks with
   | [a, b, c] => if isNum a && isNum b && isNum c then ⟨a, b, c⟩ else dflt
   | _ => dflt
+
+/-- `parse_vec_str(val, x, y, z)`. -/
+def parseV3 (dflt : V3) (s : Str) : V3 :=
+  vec3Of dflt (splitWs (dropLastIf isCloseBr (dropOpenBr (strip s))))
 
 /-! ## errors -/
 
@@ -508,18 +511,22 @@ def exportSide (multiblend : Bool) (s : Side) : KV :=
 
 def maybeHidden (hidden : Bool) (k : KV) : KV := if hidden then kBlock "hidden" [k] else k
 
+def solidEditor (includeGroups : Bool) (s : Solid) : List KV :=
+  [kLeaf "color" s.color.str] ++
+  (if includeGroups then
+    (match s.group with
+     | some g => [kInt "groupid" g]
+     | none => []) ++ (isort intLe s.visIds).map (kInt "visgroupid")
+   else []) ++
+  [kBool "visgroupshown" s.visShown, kBool "visgroupautoshown" s.visAuto] ++
+  (if s.cordon then [kLeaf "cordonsolid" ['1']] else [])
+
+def solidBlock (multiblend includeGroups : Bool) (s : Solid) : KV :=
+  kBlock "solid" (kInt "id" s.id :: (s.sides.map (exportSide multiblend) ++
+    [kBlock "editor" (solidEditor includeGroups s)]))
+
 def exportSolid (multiblend includeGroups : Bool) (s : Solid) : KV :=
-  maybeHidden s.hidden <| kBlock "solid" (
-    kInt "id" s.id :: (s.sides.map (exportSide multiblend) ++
-    [kBlock "editor" (
-      [kLeaf "color" s.color.str] ++
-      (if includeGroups then
-        (match s.group with
-         | some g => [kInt "groupid" g]
-         | none => []) ++ (isort intLe s.visIds).map (kInt "visgroupid")
-       else []) ++
-      [kBool "visgroupshown" s.visShown, kBool "visgroupautoshown" s.visAuto] ++
-      (if s.cordon then [kLeaf "cordonsolid" ['1']] else []))]))
+  maybeHidden s.hidden (solidBlock multiblend includeGroups s)
 
 def pad2 (s : Str) : Str := if s.length < 2 then '0' :: s else s
 
@@ -542,23 +549,30 @@ def exportGroup (g : Group) : KV :=
   kBlock "group" [kInt "id" g.id,
     kBlock "editor" [kBool "visgroupshown" g.shown, kBool "visgroupautoshown" g.auto, kLeaf "color" g.color.str]]
 
+def entEditor (world : Bool) (e : Ent) : List KV :=
+  [kLeaf "color" e.color.str] ++
+  (if world then [] else
+    (isort intLe e.groups).map (kInt "groupid") ++
+    (isort intLe e.visIds).map (kInt "visgroupid") ++
+    [kBool "visgroupshown" e.visShown, kBool "visgroupautoshown" e.visAuto,
+     kLeaf "logicalpos" e.logicalPos]) ++
+  (if e.comments.isEmpty then [] else [kLeaf "comments" e.comments])
+
+def entKids (multiblend world : Bool) (groups : List Group) (e : Ent) : List KV :=
+  kInt "id" e.id ::
+  ((isort keyLe e.keys).map (fun kv => KV.leaf kv.1 kv.2) ++
+   ((isort fixLe e.fixup).map exportFix ++
+   (e.solids.map (exportSolid multiblend world) ++
+   ((if e.outputs.isEmpty then [] else [kBlock "connections" (e.outputs.map exportOut)]) ++
+   ((if world then groups.map exportGroup else []) ++
+   [kBlock "editor" (entEditor world e)])))))
+
+def entBlock (multiblend world : Bool) (groups : List Group) (e : Ent) : KV :=
+  kBlock (if world then "world" else "entity") (entKids multiblend world groups e)
+
 /-- `Entity.export`; `world` = `_is_worldspawn` (then `groups` are the map's group blocks). -/
 def exportEnt (multiblend world : Bool) (groups : List Group) (e : Ent) : KV :=
-  maybeHidden e.hidden <| kBlock (if world then "world" else "entity") (
-    kInt "id" e.id ::
-    ((isort keyLe e.keys).map (fun kv => KV.leaf kv.1 kv.2) ++
-     (isort fixLe e.fixup).map exportFix ++
-     e.solids.map (exportSolid multiblend world) ++
-     (if e.outputs.isEmpty then [] else [kBlock "connections" (e.outputs.map exportOut)]) ++
-     (if world then groups.map exportGroup else []) ++
-     [kBlock "editor" (
-        [kLeaf "color" e.color.str] ++
-        (if world then [] else
-          (isort intLe e.groups).map (kInt "groupid") ++
-          (isort intLe e.visIds).map (kInt "visgroupid") ++
-          [kBool "visgroupshown" e.visShown, kBool "visgroupautoshown" e.visAuto,
-           kLeaf "logicalpos" e.logicalPos]) ++
-        (if e.comments.isEmpty then [] else [kLeaf "comments" e.comments]))]))
+  maybeHidden e.hidden (entBlock multiblend world groups e)
 
 def exportCam (c : Cam) : KV :=
   kBlock "camera" [kLeaf "position" (wrap '[' ']' c.pos.str), kLeaf "look" (wrap '[' ']' c.look.str)]
@@ -902,34 +916,57 @@ def parsePoints (cs : List KV) : Except Err (List V3) := do
     | some v => .ok v
     | none => .error .points
 
+/-- `tree["plane", …][1:-1].split(") (")` and the three `Vec.from_str`. -/
+def parsePlanes (cs : List KV) : Except Err (V3 × V3 × V3) :=
+  let plane := (getLeaf "plane" cs).getD (lit "(0 0 0) (0 0 0) (0 0 0)")
+  match splitSub (lit ") (") ((plane.drop 1).dropLast) with
+  | [a, b, c] => .ok (parseV3 v3zero a, parseV3 v3zero b, parseV3 v3zero c)
+  | _ => .error .planes
+
+def parseSideDisp (cs : List KV) : Except Err (Option Disp) :=
+  match findKey "dispinfo" cs with
+  | some k =>
+    match blockKids k with
+    | .error e => .error e
+    | .ok ks =>
+      match parseDisp ks with
+      | .error e => .error e
+      | .ok d => .ok (some d)
+  | none => .ok none
+
+def parseSidePoints (cs : List KV) : Except Err (Option (List V3)) :=
+  if hasBlock "point_data" cs then
+    match parsePoints (getBlock "point_data" cs) with
+    | .error e => .error e
+    | .ok p => .ok (some p)
+  else .ok none
+
 def parseSide : KV → Except Err Side
   | .leaf _ _ => .error .leafKv
-  | .block _ cs => do
-    let plane := (getLeaf "plane" cs).getD (lit "(0 0 0) (0 0 0) (0 0 0)")
-    let inner := (plane.drop 1).dropLast
-    let (p0, p1, p2) ← match splitSub (lit ") (") inner with
-      | [a, b, c] => pure (parseV3 v3zero a, parseV3 v3zero b, parseV3 v3zero c)
-      | _ => throw Err.planes
-    let uaxis ← parseUV ((getLeaf "uaxis" cs).getD (lit "[0 1 0 0] 0.25"))
-    let vaxis ← parseUV ((getLeaf "vaxis" cs).getD (lit "[0 0 -1 0] 0.25"))
-    let disp ← match findKey "dispinfo" cs with
-      | some k => do
-        let d ← parseDisp (← blockKids k)
-        pure (some d)
-      | none => pure none
-    let points ←
-      if hasBlock "point_data" cs then do
-        let p ← parsePoints (getBlock "point_data" cs)
-        pure (some p)
-      else pure none
-    pure {
-      id := getInt "id" (-1) cs, p0, p1, p2,
-      mat := (getLeaf "material" cs).getD [],
-      uaxis, vaxis,
-      rot := getFloat "rotation" ['0'] cs,
-      lightmap := getInt "lightmapscale" 16 cs,
-      smooth := getInt "smoothing_groups" 0 cs,
-      points, disp }
+  | .block _ cs =>
+    match parsePlanes cs with
+    | .error e => .error e
+    | .ok (p0, p1, p2) =>
+      match parseUV ((getLeaf "uaxis" cs).getD (lit "[0 1 0 0] 0.25")) with
+      | .error e => .error e
+      | .ok uaxis =>
+        match parseUV ((getLeaf "vaxis" cs).getD (lit "[0 0 -1 0] 0.25")) with
+        | .error e => .error e
+        | .ok vaxis =>
+          match parseSideDisp cs with
+          | .error e => .error e
+          | .ok disp =>
+            match parseSidePoints cs with
+            | .error e => .error e
+            | .ok points =>
+              .ok {
+                id := getInt "id" (-1) cs, p0, p1, p2,
+                mat := (getLeaf "material" cs).getD [],
+                uaxis, vaxis,
+                rot := getFloat "rotation" ['0'] cs,
+                lightmap := getInt "lightmapscale" 16 cs,
+                smooth := getInt "smoothing_groups" 0 cs,
+                points, disp }
 
 structure SolidEd where
   visIds : List Int := []
@@ -957,16 +994,56 @@ def solidEdStep (st : SolidEd) (k : KV) : Except Err SolidEd :=
     | none => .ok st)
   else .ok st
 
+/-- a loop over children with an accumulator (`for x in kvs: …`), stopping at the first error. -/
+def foldE {σ} (step : σ → KV → Except Err σ) : σ → List KV → Except Err σ
+  | st, [] => .ok st
+  | st, k :: ks =>
+    match step st k with
+    | .error e => .error e
+    | .ok st' => foldE step st' ks
+
+/-- `for side in tree.find_all("side")`. -/
+def parseSides : List KV → Except Err (List Side)
+  | [] => .ok []
+  | k :: ks =>
+    if named "side" k then
+      match parseSide k with
+      | .error e => .error e
+      | .ok s =>
+        match parseSides ks with
+        | .error e => .error e
+        | .ok r => .ok (s :: r)
+    else parseSides ks
+
+/-- `tree.find_children("editor")`: the children of every child named `editor`. -/
+def editorKids : List KV → Except Err (List KV)
+  | [] => .ok []
+  | k :: ks =>
+    if named "editor" k then
+      match blockKids k with
+      | .error e => .error e
+      | .ok a =>
+        match editorKids ks with
+        | .error e => .error e
+        | .ok b => .ok (a ++ b)
+    else editorKids ks
+
+def solidOf (hidden : Bool) (id : Int) (sides : List Side) (ed : SolidEd) : Solid :=
+  { id, sides, visIds := ed.visIds, hidden, group := ed.group,
+    visShown := ed.visShown, visAuto := ed.visAuto, cordon := ed.cordon, color := ed.color }
+
 def parseSolid (hidden : Bool) : KV → Except Err Solid
   | .leaf _ _ => .error .leafKv
-  | .block _ cs => do
-    let sides ← (cs.filter (named "side")).mapM parseSide
-    let edKids ← (cs.filter (named "editor")).foldlM (init := []) fun acc k => do
-      let ks ← blockKids k
-      pure (acc ++ ks)
-    let ed ← edKids.foldlM solidEdStep {}
-    pure { id := getInt "id" (-1) cs, sides, visIds := ed.visIds, hidden, group := ed.group,
-           visShown := ed.visShown, visAuto := ed.visAuto, cordon := ed.cordon, color := ed.color }
+  | .block _ cs =>
+    match parseSides cs with
+    | .error e => .error e
+    | .ok sides =>
+      match editorKids cs with
+      | .error e => .error e
+      | .ok edKids =>
+        match foldE solidEdStep {} edKids with
+        | .error e => .error e
+        | .ok ed => .ok (solidOf hidden (getInt "id" (-1) cs) sides ed)
 
 /-- `Output.parse_name`. -/
 def parseName (name : Str) : Except Err (Option Str × Str) :=
@@ -978,29 +1055,41 @@ def parseName (name : Str) : Except Err (Option Str × Str) :=
 
 def joinComma (l : List Str) : Str := joinWith [','] l
 
+/-- the separator actually used, and the split value -/
+def outEsc (value : Str) : Bool := value.contains '\x1b'
+def outVals (value : Str) : List Str := if outEsc value then splitOn '\x1b' value else splitOn ',' value
+
+/-- `targ, inp, param, delay, times = vals`, with the "too many commas" special case. -/
+def outFields (esc : Bool) (vals : List Str) : Except Err (Str × Str × Str × Str × Str) :=
+  match vals with
+  | [a, b, c, d, e] => .ok (a, b, c, d, e)
+  | a :: b :: rest =>
+    if !esc && vals.length > 5 then
+      let n := rest.length
+      .ok (a, b, joinComma (rest.take (n - 2)), (rest.drop (n - 2)).headD [], (rest.drop (n - 1)).headD [])
+    else .error .outputValue
+  | _ => .error .outputValue
+
+def outBuild (name : Str) (esc : Bool) (f : Str × Str × Str × Str × Str) : Except Err Out :=
+  match parseName name with
+  | .error e => .error e
+  | .ok (instOut, out) =>
+    match parseName f.2.1 with
+    | .error e => .error e
+    | .ok (instIn, inp) =>
+      if !isNum f.2.2.2.1 then .error .badFloat
+      else match parseInt? f.2.2.2.2 with
+        | none => .error .badInt
+        | some times =>
+          .ok { output := out, instOut, target := f.1, input := inp, instIn, params := f.2.2.1,
+                delay := f.2.2.2.1, times, comma := !esc }
+
 def parseOut : KV → Except Err Out
   | .block _ _ => .error .leafKv
-  | .leaf name value => do
-    let esc := value.contains '\x1b'
-    let vals := if esc then splitOn '\x1b' value else splitOn ',' value
-    let (targ, inp, param, delay, times) ← match vals with
-      | [a, b, c, d, e] => pure (a, b, c, d, e)
-      | _ =>
-        if !esc && vals.length > 5 then
-          match vals with
-          | a :: b :: rest =>
-            let n := rest.length
-            pure (a, b, joinComma (rest.take (n - 2)), (rest.drop (n - 2)).headD [], (rest.drop (n - 1)).headD [])
-          | _ => throw Err.outputValue
-        else throw Err.outputValue
-    let (instOut, out) ← parseName name
-    let (instIn, inp) ← parseName inp
-    if !isNum delay then throw Err.badFloat
-    let times ← match parseInt? times with
-      | some t => pure t
-      | none => throw Err.badInt
-    pure { output := out, instOut, target := targ, input := inp, instIn, params := param,
-           delay, times, comma := !esc }
+  | .leaf name value =>
+    match outFields (outEsc value) (outVals value) with
+    | .error e => .error e
+    | .ok f => outBuild name (outEsc value) f
 
 def parseGroup : KV → Except Err Group
   | .leaf _ _ => .error .leafKv
@@ -1081,27 +1170,45 @@ def isNumeric (s : Str) : Bool := !s.isEmpty && s.all Char.isDigit
 
 def last2 (s : Str) : Str := s.drop (s.length - 2)
 
+def parseOuts : List KV → Except Err (List Out)
+  | [] => .ok []
+  | k :: ks =>
+    match parseOut k with
+    | .error e => .error e
+    | .ok o =>
+      match parseOuts ks with
+      | .error e => .error e
+      | .ok r => .ok (o :: r)
+
+def hiddenStep (st : EntSt) (b : KV) : Except Err EntSt :=
+  if named "solid" b then
+    match parseSolid true b with
+    | .error e => .error e
+    | .ok s => .ok { st with solids := st.solids ++ [s] }
+  else .error .hiddenKey
+
+def fixOfLeaf (value : Str) (index : Int) : Fix :=
+  { var := lstripC '$' (splitFirst ' ' value []).1, value := ((splitFirst ' ' value []).2).getD [], id := index }
+
 def entStep (world : Bool) (st : EntSt) (k : KV) : Except Err EntSt :=
   match k with
   | .block _ cs =>
-    if named "solid" k then do
-      let s ← parseSolid false k
-      pure { st with solids := st.solids ++ [s] }
-    else if named "connections" k then do
-      let outs ← cs.mapM parseOut
-      pure { st with outputs := st.outputs ++ outs }
-    else if named "editor" k then cs.foldlM entEdStep st
-    else if named "hidden" k then
-      cs.foldlM (init := st) fun st b =>
-        if named "solid" b then do
-          let s ← parseSolid true b
-          pure { st with solids := st.solids ++ [s] }
-        else .error .hiddenKey
+    if named "solid" k then
+      match parseSolid false k with
+      | .error e => .error e
+      | .ok s => .ok { st with solids := st.solids ++ [s] }
+    else if named "connections" k then
+      match parseOuts cs with
+      | .error e => .error e
+      | .ok outs => .ok { st with outputs := st.outputs ++ outs }
+    else if named "editor" k then foldE entEdStep st cs
+    else if named "hidden" k then foldE hiddenStep st cs
     else if named "group" k then
       if !world then .error .groupNotWorld
-      else do
-        let g ← parseGroup k
-        pure { st with groups := st.groups ++ [g] }
+      else
+        match parseGroup k with
+        | .error e => .error e
+        | .ok g => .ok { st with groups := st.groups ++ [g] }
     else .error .entityBlock
   | .leaf name value =>
     if named "id" k && isNumeric value then
@@ -1109,22 +1216,25 @@ def entStep (world : Bool) (st : EntSt) (k : KV) : Except Err EntSt :=
     else if (lit "replace").isPrefixOf k.fname then
       match parseInt? (last2 k.fname) with
       | none => .ok { st with keys := dictSet st.keys name value }
-      | some index =>
-        let (a, b) := splitFirst ' ' value []
-        .ok { st with fixup := st.fixup ++ [{ var := lstripC '$' a, value := b.getD [], id := index }] }
+      | some index => .ok { st with fixup := st.fixup ++ [fixOfLeaf value index] }
     else .ok { st with keys := dictSet st.keys name value }
+
+/-- `Entity.__init__` on what `Entity.parse` collected (without id allocation). -/
+def entOfSt (hidden : Bool) (st : EntSt) : Ent :=
+  { id := st.id, keys := st.keys.foldl (fun ks kv => entSetKey ks kv.1 kv.2) [],
+    fixup := fixInit st.fixup, outputs := st.outputs, solids := st.solids,
+    hidden, groups := st.groupIds, visIds := st.visIds, visShown := st.visShown,
+    visAuto := st.visAuto, color := st.color, logicalPos := st.logicalPos,
+    comments := st.comments }
 
 /-- `Entity.parse` + `Entity.__init__` (without id allocation). Returns the entity and the group
 blocks found in it. -/
 def parseEnt (world hidden : Bool) : KV → Except Err (Ent × List Group)
   | .leaf _ _ => .error .leafKv
-  | .block _ cs => do
-    let st ← cs.foldlM (entStep world) {}
-    let keys := st.keys.foldl (fun ks kv => entSetKey ks kv.1 kv.2) []
-    pure ({ id := st.id, keys, fixup := fixInit st.fixup, outputs := st.outputs, solids := st.solids,
-            hidden, groups := st.groupIds, visIds := st.visIds, visShown := st.visShown,
-            visAuto := st.visAuto, color := st.color, logicalPos := st.logicalPos,
-            comments := st.comments }, st.groups)
+  | .block _ cs =>
+    match foldE (entStep world) {} cs with
+    | .error e => .error e
+    | .ok st => .ok (entOfSt hidden st, st.groups)
 
 def parseCam : KV → Except Err Cam
   | .leaf _ _ => .error .leafKv
@@ -1141,48 +1251,124 @@ def parseCordon : KV → Except Err Cordon
 def allVisgroups (root : List KV) : List KV :=
   (root.filter (named "visgroups")).flatMap fun k => k.kids.filter (named "visgroup")
 
+def parseHiddenEnts : List KV → Except Err (List Ent)
+  | [] => .ok []
+  | h :: hs =>
+    match parseEnt false true h with
+    | .error e => .error e
+    | .ok (e, _) =>
+      match parseHiddenEnts hs with
+      | .error e => .error e
+      | .ok r => .ok (e :: r)
+
+/-- the entities of the file, visible and hidden, in file order. -/
+def parseRootEnts : List KV → Except Err (List Ent)
+  | [] => .ok []
+  | k :: ks =>
+    if named "entity" k then
+      match parseEnt false false k with
+      | .error e => .error e
+      | .ok (e, _) =>
+        match parseRootEnts ks with
+        | .error e => .error e
+        | .ok r => .ok (e :: r)
+    else if named "hidden" k then
+      match blockKids k with
+      | .error e => .error e
+      | .ok hs =>
+        match parseHiddenEnts hs with
+        | .error e => .error e
+        | .ok a =>
+          match parseRootEnts ks with
+          | .error e => .error e
+          | .ok r => .ok (a ++ r)
+    else parseRootEnts ks
+
+def parseInstVis (view : List KV) : Option Int :=
+  match getLeaf "nInstanceVisibility" view with
+  | none => none
+  | some v =>
+    match parseInt? v with
+    | some i => if i == 0 || i == 1 || i == 2 then some i else some 1
+    | none => some 1
+
+def parseVisAll : List KV → Except Err (List Vis)
+  | [] => .ok []
+  | k :: ks =>
+    match parseVis k with
+    | .error e => .error e
+    | .ok v =>
+      match parseVisAll ks with
+      | .error e => .error e
+      | .ok r => .ok (v :: r)
+
+def parseCams : List KV → Except Err (List Cam)
+  | [] => .ok []
+  | k :: ks =>
+    if named "activecamera" k then parseCams ks
+    else
+      match parseCam k with
+      | .error e => .error e
+      | .ok c =>
+        match parseCams ks with
+        | .error e => .error e
+        | .ok r => .ok (c :: r)
+
+def parseCordons : List KV → Except Err (List Cordon)
+  | [] => .ok []
+  | k :: ks =>
+    if named "cordon" k then
+      match parseCordon k with
+      | .error e => .error e
+      | .ok c =>
+        match parseCordons ks with
+        | .error e => .error e
+        | .ok r => .ok (c :: r)
+    else parseCordons ks
+
+def worldKv (root : List KV) : KV :=
+  match findLast (fun k => named "world" k && k.isBlock) root with
+  | some k => k
+  | none => kBlock "world" []
+
 /-- `VMF.parse` without id allocation. -/
-def parseRaw (root : List KV) : Except Err VMap := do
+def parseRaw (root : List KV) : Except Err VMap :=
   let ver := getBlock "versioninfo" root
-  let fv := (getLeaf "formatversion" ver).getD (lit "100")
-  if fv != lit "100" then throw .formatVersion
   let view := getBlock "viewsettings" root
   let cordons := getBlock "cordons" root
   let cams := getBlock "cameras" root
   let quick := getBlock "quickhide" root
-  let instVis : Option Int := match getLeaf "nInstanceVisibility" view with
-    | none => none
-    | some v => match parseInt? v with
-      | some i => if i == 0 || i == 1 || i == 2 then some i else some 1
-      | none => some 1
-  let views ← parseViews view
-  let vis ← (allVisgroups root).mapM parseVis
-  let camList ← (cams.filter fun c => !named "activecamera" c).mapM parseCam
-  let cordonList ← (cordons.filter (named "cordon")).mapM parseCordon
-  let worldKv : KV := match findLast (fun k => named "world" k && k.isBlock) root with
-    | some k => k
-    | none => kBlock "world" []
-  let (spawn, groups) ← parseEnt true false worldKv
-  let spawn := { spawn with keys := entSetKey spawn.keys (lit "classname") (lit "worldspawn") }
-  let ents ← root.foldlM (init := ([] : List Ent)) fun acc k =>
-    if named "entity" k then do
-      let (e, _) ← parseEnt false false k
-      pure (acc ++ [e])
-    else if named "hidden" k then do
-      let hs ← (← blockKids k).mapM fun h => do
-        let (e, _) ← parseEnt false true h
-        pure e
-      pure (acc ++ hs)
-    else pure acc
-  pure {
-    hammerVer := getInt "editorversion" 400 ver, hammerBuild := getInt "editorbuild" 5304 ver,
-    mapVer := getInt "mapversion" 0 ver, formatVer := 100, prefab := getBool "prefab" false ver,
-    vis, snap := getBool "bSnapToGrid" true view, grid := getBool "bShowGrid" true view,
-    logic := getBool "bShowLogicalGrid" false view, spacing := getInt "nGridSpacing" 64 view,
-    grid3d := getBool "bShow3DGrid" false view, instVis, views, spawn, groups, ents,
-    activeCam := getInt "activecamera" (-1) cams, cams := camList,
-    cordonOn := getBool "active" false cordons, cordons := cordonList,
-    quickhide := getInt "count" 0 quick }
+  if (getLeaf "formatversion" ver).getD (lit "100") != lit "100" then .error .formatVersion
+  else
+    match parseViews view with
+    | .error e => .error e
+    | .ok views =>
+      match parseVisAll (allVisgroups root) with
+      | .error e => .error e
+      | .ok vis =>
+        match parseCams cams with
+        | .error e => .error e
+        | .ok camList =>
+          match parseCordons cordons with
+          | .error e => .error e
+          | .ok cordonList =>
+            match parseEnt true false (worldKv root) with
+            | .error e => .error e
+            | .ok (spawn, groups) =>
+              match parseRootEnts root with
+              | .error e => .error e
+              | .ok ents =>
+                .ok {
+                  hammerVer := getInt "editorversion" 400 ver, hammerBuild := getInt "editorbuild" 5304 ver,
+                  mapVer := getInt "mapversion" 0 ver, formatVer := 100, prefab := getBool "prefab" false ver,
+                  vis, snap := getBool "bSnapToGrid" true view, grid := getBool "bShowGrid" true view,
+                  logic := getBool "bShowLogicalGrid" false view, spacing := getInt "nGridSpacing" 64 view,
+                  grid3d := getBool "bShow3DGrid" false view, instVis := parseInstVis view, views,
+                  spawn := { spawn with keys := entSetKey spawn.keys (lit "classname") (lit "worldspawn") },
+                  groups, ents,
+                  activeCam := getInt "activecamera" (-1) cams, cams := camList,
+                  cordonOn := getBool "active" false cordons, cordons := cordonList,
+                  quickhide := getInt "count" 0 quick }
 
 /-! ## id managers -/
 
